@@ -160,7 +160,7 @@ def run(chk, tier, seed):
     chk.add(evaluations=total + nbs, distinct_nontrivial=nontriv + nbs, exhaustive=True,
             rule="every complete behaviour of TreeBuilder.tla within the bounds (leaf kinds x level alphabets x maximum-level settings, refusals "
                  "at every point, uniform trees up to 33/70 leaves) replayed on the real builder; non-trivial = at least two accepted leaves")
-    chk.assumptions += ["block signer: histories of BlockSigner.tla (<= 3/4 leaves per block, levels {0,2}, metadata yes/no, masked yes/no, one reset at any point) over the real blocking TCP client with the reference aggregator; quick replays 700 sampled histories",
+    chk.assumptions += ["block signer: histories of BlockSigner.tla (<= 3/4 leaves per block, levels {0,2}, metadata yes/no, masked yes/no, one reset at any point) over the real blocking TCP client with the reference aggregator; quick replays 700 sampled histories, thorough 8000 (of all histories TLC exports)",
                         "leaf processors other than the block signer's are not modelled"]
 
 
@@ -204,8 +204,8 @@ def block_signer(chk, tier, seed):
     rng = random.Random(seed)
     cases = bs_cases(chk, tier)
     # the last "closesign" of every history is the one to replay (earlier segments are prefixes of other histories)
-    if tier == "quick":
-        rng.shuffle(cases); cases = cases[:700]
+    total_histories = len(cases)
+    rng.shuffle(cases); cases = cases[:700 if tier == "quick" else 8000]      # replaying one history costs ~35 ms: the thorough tier samples too when MaxLeaves = 4
     exe = netsim.build(); s = netsim.Session(exe); n = 0
     prev0 = ksi.fake_imprint(1, b"prev-leaf"); iv = bytes(range(32))
     def signer(raw):
@@ -299,6 +299,7 @@ def block_signer(chk, tier, seed):
         rc, err = s.close()
         if rc != 0:
             chk.violation("crash:blocksigner:exit", "driver exited rc=%s (leak or sanitizer report)\n%s" % (rc, err[-2500:]), {})
+    chk.add(block_signer_histories_in_model=total_histories)
     return n
 
 
